@@ -1065,13 +1065,55 @@ fn chaos_of(base: &AppSpec, seed: u64) -> AppSpec {
                 notes.push("generic constructors instantiated with arbitrary types".into());
             }
         }
-        7 | 8 => {
+        7 => {
+            // two request-time values that need each other by reference, one of them borrowed by an error observer
+            let cands: Vec<usize> = (0..spec.types.len()).filter(|t| spec.types[*t].life != Life::Singleton && !spec.types[*t].prebuilt && spec.types[*t].variants == 1).collect();
+            if cands.len() >= 2 {
+                let a = cands[next() % cands.len()];
+                let b = *cands.iter().find(|t| **t != a).unwrap();
+                spec.types[a].inputs = vec![(b, Mode::Ref)];
+                spec.types[b].inputs = vec![(a, Mode::Ref)];
+                spec.types[a].fallible = None;
+                spec.types[b].fallible = None;
+                let mut registered = vec![];
+                spec.walk_regs(&mut |r, _| {
+                    if let Reg::Comp { idx } = r {
+                        registered.push(*idx);
+                    }
+                });
+                let obs = match registered.iter().copied().find(|c| spec.comps[*c].kind == CompKind::Observer) {
+                    Some(o) => o,
+                    None => {
+                        let o = spec.comps.len();
+                        spec.comps.push(CompSpec { kind: CompKind::Observer, inputs: vec![], fallible: None, is_async: false, route: None, fw: vec![], gens: vec![] });
+                        spec.bp.insert(0, Reg::Comp { idx: o });
+                        o
+                    }
+                };
+                if !spec.comps[obs].inputs.iter().any(|(t, _)| *t == a) {
+                    spec.comps[obs].inputs.push((a, Mode::Ref));
+                }
+                notes.push(format!("T{a} and T{b} need each other by reference and error observer x{obs} borrows T{a}"));
+            }
+        }
+        8 => {
             // an error observer (or an error handler) that borrows a value sitting on a dependency cycle made of references only
             if let Some(p) = genr::plant(&spec, 1, next() as u16) {
                 spec = p.spec;
                 notes.push(p.what);
             }
             let on_cycle: Vec<usize> = (0..spec.types.len()).filter(|t| model::closure(&spec, &spec.types[*t].inputs).contains(t)).collect();
+            if next() % 2 == 0 {
+                // every link of the cycle by reference
+                for t in &on_cycle {
+                    let inputs = spec.types[*t].inputs.clone();
+                    for (n, (i, _)) in inputs.iter().enumerate() {
+                        if on_cycle.contains(i) {
+                            spec.types[*t].inputs[n].1 = Mode::Ref;
+                        }
+                    }
+                }
+            }
             let mut registered = vec![];
             spec.walk_regs(&mut |r, _| {
                 if let Reg::Comp { idx } = r {
